@@ -85,6 +85,8 @@ def cases(tier, seed):
         for w in ('bin', 'real', 'logu'):
             out.append({'kind': 'walk', 'g': ['perm', g, seed + i] if i % 2 else g, 'directed': False, 'w': w, 'ws': i,
                         'scale': 1e-10 if (i % 3 == 0 and w == 'real') else 1.0})
+    for i, g in enumerate(conn[::3]):
+        out.append({'kind': 'walk', 'g': g, 'directed': False, 'w': 'real', 'ws': i, 'faint': [1e-9, 1e-10][i % 2]})
     strong = [['named', 'dcycle', 4], ['named', 'dcycle', 6], ['named', 'dcycle', 5], ['named', 'dcycle_chords', 6, 2, seed],
               ['named', 'two_blobs_dir', 3, seed], ['named', 'dcycle_chords', 8, 8, seed]]
     for t in range(60 if thorough else 15):
@@ -171,6 +173,16 @@ def run_walk(case, bct, REC):
     W = G.weigh(A, case['w'], case['ws'], symmetric=not directed) * case.get('scale', 1.0)
     if case['w'] == 'logu':
         W = np.maximum(W, 1e-6 * (A != 0))   # keep the chain numerically irreducible (conditioning, not magnitude, is the point)
+    if case.get('faint'):
+        # a symmetric backbone and one extra node hanging on two faint ONE-WAY connections (in from node 0, out to
+        # node 2): symmetric to any tolerance-based test, not reversible, strongly connected only through 1e-9
+        n0 = len(W)
+        W2 = np.zeros((n0 + 1, n0 + 1))
+        W2[:n0, :n0] = W
+        W2[0, n0] = case['faint'] * W.max()
+        W2[n0, min(2, n0 - 1)] = 4 * case['faint'] * W.max()      # (another weight on the way out: not reversible)
+        W = W2
+        directed = True
     n = len(W)
     if not (O.is_strongly_connected(W) if directed else O.is_connected(W)):
         return
@@ -197,6 +209,20 @@ def run_walk(case, bct, REC):
             res = float(np.max(np.abs(R[off])))
             good = res <= 1e-8 * max(1.0, float(np.max(np.abs(Mr))))
         REC.check(PROP, 'mean_first_passage_time', 'first_passage_equation', bool(good), dict(det, got=M, residual=res), cls)
+        if good:
+            # the same equations solved directly, one target at a time (a residual relative to the largest passage time
+            # says little about the small ones): 1e-6, 1e-3 for the ill-conditioned classes (measured on the unchanged
+            # routine: up to 1.2e-6 with a 1e-9 bridge)
+            Mo = np.zeros((n, n))
+            try:
+                for j in range(n):
+                    idx = [i for i in range(n) if i != j]
+                    Mo[idx, j] = np.linalg.solve(np.eye(n - 1) - P[np.ix_(idx, idx)], np.ones(n - 1))
+                rt = 1e-3 if (case['w'] == 'logu' or case.get('faint')) else 1e-6
+                REC.check(PROP, 'mean_first_passage_time', 'first_passage_direct_solve', close(np.real(M)[off], Mo[off], rtol=rt, atol=0),
+                          dict(det, got=M, expected=Mo), cls + (('faint_one_way_bridge',) if case.get('faint') else ()))
+            except np.linalg.LinAlgError:
+                REC.skip(PROP, 'mean_first_passage_time', 'first_passage_direct_solve')
         ok2, r2 = call(REC, PROP, 'diffusion_efficiency', bct.diffusion_efficiency, W, _classes=cls)
         if ok2 and M.shape == (n, n):
             ge, ed = r2
